@@ -172,6 +172,13 @@ def _src_block(name, body, scoped=False, required=False):
 
 
 def native_inheritance(w=None):
+    try:
+        return _native_inheritance(w)
+    except Exception as ex:  # the family itself never fails on a correct tree
+        return (True, f"inheritance family failed with {type(ex).__name__}: {str(ex)[:160]}")
+
+
+def _native_inheritance(w=None):
     """Native oracle: families of inheritance chains rendered from a DictLoader and compared with an independent
     resolver (most-derived definition per block; super() = next less-derived; self.b() = most derived; content outside
     blocks in children dropped; scoped blocks see loop variables; required blocks)."""
@@ -872,8 +879,8 @@ def block_pred(sc, tree, ph, txt):
     top, known = decide(sc, TOP), decide(sc, KNOWN)
     if top is True and known is True and not tree.body:
         return []  # nothing emitted: the parent's layout calls the block (otherwise it must at least be guarded, checked below)
-    if top is None or (top and known is None):
-        return ["path does not decide frame.toplevel / has_known_extends"]
+    if top is None:
+        return ["path does not decide frame.toplevel"]
     body = list(tree.body)
     fails = []
     if top:
@@ -999,8 +1006,8 @@ def output_pred(sc, tree, ph, txt):
     if sc.outcome == "raise":
         return [f"visit_Output raises {sc.value!r}"]
     chk, known = decide(sc, OUTCHECK), decide(sc, KNOWN)
-    if chk is None or (chk and known is None):
-        return ["path does not decide require_output_check / has_known_extends"]
+    if chk is None:
+        return ["path does not decide require_output_check"]
     n_children = len(sc.st.get(sc.st.get(sc.node).fields["nodes"]).items)
     if chk and known and not tree.body:
         return []  # suppressed statically (otherwise it must at least be guarded at run time, checked below)
@@ -1230,6 +1237,11 @@ def normalise_events(ev):
             continue
         if after_root_extends and e[0] in ("out", "block") and e[2] is True:
             continue
+        if e[0] == "if":
+            inner = list(e[1])
+            if ("multi", False) in inner:
+                inner = inner[:inner.index(("multi", False)) + 1]  # dead code after the unconditional raise inside the branch
+            e = ("if", tuple(inner))
         out.append(e)
         if e[0] == "extends":
             after_root_extends = True
